@@ -1143,7 +1143,7 @@ pub fn process_incomplete_version<T: Deref<Target = rusqlite::Connection> + Comm
                     ("table", pk, cid, val, col_version, db_version, site_id, cl, seq, ts)
                 VALUES
                     (:table, :pk, :cid, :val, :col_version, :db_version, :site_id, :cl, :seq, :ts)
-                ON CONFLICT (site_id, db_version, seq)
+                ON CONFLICT (site_id, db_version, seq, "table", pk, cid)
                     DO NOTHING
             "#,
             )?
